@@ -41,10 +41,14 @@ Obs == l <= Len(Traces[tid]) /\ l' = l + 1 /\ UNCHANGED tid /\ params' = Abs(Ev.
 TGetSet == Ev.cmd = "get_then_set" /\ Ev.outcome = "ok" /\ GetSetRoundTrip /\ Obs
 TSetTok == /\ Ev.cmd = "set_params" /\ Ev.outcome = "ok" /\ Ev.args[1] \in {"symbolic_model", "sensor_models", "calibration_map"}
            /\ SetTok(Ev.args[1], Ev.args[2]) /\ Obs
-TSetPN == Ev.cmd = "set_params" /\ Ev.outcome = "ok" /\ Ev.args[1] = "process_noise" /\ SetPNoise(Ev.args[2]) /\ Obs
+TSetPN == Ev.cmd = "set_params" /\ Ev.outcome = "ok" /\ Len(Ev.args) = 2 /\ Ev.args[1] = "process_noise" /\ SetPNoise(Ev.args[2]) /\ Obs
 TSetSN == Ev.cmd = "set_params" /\ Ev.outcome = "ok" /\ Ev.args[1] = "sensor_noises" /\ SetSNoise(Ev.args[2]) /\ Obs
-TSetField == /\ Ev.cmd = "set_params" /\ Ev.outcome = "ok" /\ Ev.args[1] \in ConfigFields
+TSetField == /\ Ev.cmd = "set_params" /\ Ev.outcome = "ok" /\ Len(Ev.args) = 2 /\ Ev.args[1] \in ConfigFields
              /\ SetConfigField(Ev.args[1], Ev.args[2]) /\ Obs
+TSetTwo == /\ Ev.cmd = "set_params" /\ Ev.outcome = "ok" /\ Len(Ev.args) = 4 /\ Ev.args[1] \in ConfigFields
+           /\ SetTwoFields(Ev.args[1], Ev.args[2], Ev.args[3], Ev.args[4]) /\ Obs
+TSetNoiseField == /\ Ev.cmd = "set_params" /\ Ev.outcome = "ok" /\ Len(Ev.args) = 4 /\ Ev.args[1] = "process_noise"
+                  /\ SetNoiseAndField(Ev.args[2], Ev.args[3], Ev.args[4]) /\ Obs
 TSetConfig == /\ Ev.cmd = "set_params" /\ Ev.outcome = "ok" /\ Ev.args[1] = "config"
               /\ SetConfig(Ev.args[2]) /\ Obs
 TSetBogus == /\ Ev.cmd = "set_params" /\ Ev.outcome = "refused" /\ Ev.args[1] \notin AllowedKeys \cup ConfigFields
@@ -65,7 +69,7 @@ TFitFail == /\ Ev.cmd = "fit" /\ Ev.outcome = "MinimizationFailure" /\ l <= Len(
             /\ UNCHANGED <<tid, uni, orig, log, done>>
 
 TNext == l <= Len(Traces[tid]) /\
-         (TGetSet \/ TSetTok \/ TSetPN \/ TSetSN \/ TSetField \/ TSetConfig \/ TSetBogus \/ TClone \/ TQuery \/ TFitOk \/ TFitFail)
+         (TGetSet \/ TSetTok \/ TSetPN \/ TSetSN \/ TSetField \/ TSetTwo \/ TSetNoiseField \/ TSetConfig \/ TSetBogus \/ TClone \/ TQuery \/ TFitOk \/ TFitFail)
 
 Reach == TLCSet(tid, IF TLCGet(tid) < l THEN l ELSE TLCGet(tid))
 Post == \A t \in 1..Len(Traces) :
